@@ -1,4 +1,5 @@
 import HexVerif.Lemmas.XcmpStage4Callee
+import HexVerif.Lemmas.XcmpActualsP
 /-!
   Stage (4), the caller: the code of `genFuncCall` / `genProcCall` with call-free actuals, given
   the specification of the callee.
@@ -400,5 +401,143 @@ theorem exec_usercall {G : GCtx} (ok : G.OK) (fuel : Nat) (hcs : CallSpec G fuel
     refine ⟨a', b', mem', ?_, rep', hres, frm1.trans frm2⟩
     rw [List.length_append, ← Nat.add_assoc]
     exact st1.trans hs
+
+theorem noLoc_of_rep {G : GCtx} {pi : PInfo} {sp dep : Nat} {hi : Nat → Word} {σ : X.St} {mem : Mem}
+    (rep : Rep (KOf G pi sp dep hi) σ mem) : NoLoc G.pnames σ := by
+  intro g hg
+  exact rep.gvis g (List.mem_append_right _ (by simpa using hg))
+
+theorem getElem_map_wordOf (abase : Nat → Nat) (vs : List Val) (k : Nat) (hk : k < (vs.map (wordOf abase)).length) :
+    (vs.map (wordOf abase))[k] = wordOf abase (vs[k]'(by simpa using hk)) := by
+  simp
+
+/-- **A user call whose actuals may contain calls of pure functions.** -/
+theorem exec_usercallP {G : GCtx} (ok : G.OK) (pk : PureOk G.xc) (fuel : Nat) (hcs : CallSpec G fuel) {pi : PInfo} (hpi : pi ∈ G.procs)
+    {pj : PInfo} (hpj : pj ∈ G.procs) (sp dep : Nat) (hi : Nat → Word) (hlo : G.lo ≤ sp) (hspv : sp + G.S pi + pi.po + pi.p.formals.length ≤ G.spv + 1)
+    (hstack : G.spv ≤ sp + dep * G.smax)
+    (es : List X.Expr) (fuel' : Nat) (hleaf : ∀ k, k ≤ fuel' → CallLeaf (KOf G pi sp dep hi) G.pnames k)
+    (st s : X.St) (ws : List Val) (hp : ∀ e ∈ es, ppE G.pnames G.xc.impure e = true)
+    (hev : X.evalArgs fuel' G.xc es st = .ok ws s)
+    (gs : GS) (code : Code) (gs' : GS) (i : Nat) (a b : Word) (mem : Mem)
+    (hg : callSeq pj.callKind (optArgsOf G.rho es).length (countCalls (optArgsOf G.rho es))
+            (genCallActuals (G.ctxOf pi) (optArgsOf G.rho es))
+            (fun p sv => loadActuals (G.ctxOf pi) (optArgsOf G.rho es) p sv) gs = .ok (code, gs'))
+    (hat : At G.env.ds i (lowerCode G.cg code)) (hr : Rep (KOf G pi sp dep hi) st mem)
+    (hsz : gs'.size ≤ G.S pi) (hnl : pi.p.locals.length ≤ gs.offset) (hci : ConstsIn (KOf G pi sp dep hi) gs') :
+    match X.callUser fuel G.xc pj.p ws s with
+    | .ok res s' => ∃ a' b' mem', Steps G.env (cfg i a b mem) st.io (cfg (i + (lowerCode G.cg code).length) a' b' mem') s'.io ∧
+        Rep (KOf G pi sp dep hi) s' mem' ∧ (pj.p.isFunc = true → ∀ w, res = some w → a' = w) ∧
+        FrmC (KOf G pi sp dep hi) gs.offset (G.S pi) mem mem'
+    | .exit cd s' => ∃ c, Steps G.env (cfg i a b mem) st.io c s'.io ∧ Exit G.env c s'.io cd
+    | .undef _ => True := by
+  have wf := ok.wfs pi hpi sp dep hi hlo hspv
+  have hps : ∀ g, G.pnames.contains g = true → ∃ p, G.xc.genv.lookup g = some (.proc p) :=
+    fun g hg => ok.pnames_mem g (by simpa using hg)
+  obtain ⟨hsim, hlenv, hokv, hsave, hload⟩ := ppArgs_specs (KOf G pi sp dep hi) wf.toWF G.pnames pk hps es fuel' hleaf st st s ws mem
+    hp (Sim.refl _) (noLoc_of_rep hr) hr hev
+  obtain ⟨c1, gs1, c2, gs2, h1, h2, hcode, hgs'⟩ := callSeq_inv _ _ _ _ _ _ _ _ hg
+  have hlen : (optArgsOf G.rho es).length = es.length := by simp [optArgsOf]
+  have hlenW : (optArgsOf G.rho es).length = (ws.map (wordOf G.abase)).length := by simp [optArgsOf, hlenv]
+  obtain ⟨f1o, f1s, f1c, f1os⟩ := genCallActuals_facts _ _ _ _ _ h1
+  simp only at f1o f1s f1c f1os
+  obtain ⟨b1o, b1s, _, b1p, b1c⟩ := bumpN_facts (countCalls (optArgsOf G.rho es)) { gs1 with offset := gs.offset }
+  simp only at b1o b1s b1p b1c
+  rw [callKind_po] at h2
+  obtain ⟨e2o, e2s, _, e2c⟩ := loadActuals_eff _ _ _ _ _ _ _ h2
+  subst hgs'
+  simp only [callKind_po, hlen] at hsz hci
+  subst hcode
+  simp only [lowerCode_append, List.append_assoc] at hat ⊢
+  have hpo := po_pos pj
+  have hb : gs2.size + (es.length + pj.po) ≤ G.S pi := Nat.le_trans (Nat.le_max_right _ _) hsz
+  have hci2 : ConstsIn (KOf G pi sp dep hi) gs2 := hci
+  have hcib : ConstsIn (KOf G pi sp dep hi) (bumpN (countCalls (optArgsOf G.rho es)) { gs1 with offset := gs.offset }) :=
+    fun x hx => hci2 x (e2c x hx)
+  have hci1 : ConstsIn (KOf G pi sp dep hi) gs1 := fun x hx => hcib x (by rw [b1c]; exact hx)
+  -- the actuals with calls are parked
+  obtain ⟨a1, b1, mem1, st1, rep1, hsv, _, _, _, frm1⟩ := exec_saveItems (KOf G pi sp dep hi) wf.toWF st _ _ hlenW hsave
+    { gs with size := gs.offset } c1 gs1 i a b mem h1 hat.left hr (by show gs1.size ≤ G.S pi; omega) hnl
+    (f1os (Nat.le_refl _)) hci1
+  -- all actuals into their parameter slots
+  have hboff : gs.offset ≤ (bumpN (countCalls (optArgsOf G.rho es)) { gs1 with offset := gs.offset }).size := by
+    by_cases hn : 0 < countCalls (optArgsOf G.rho es)
+    · have := b1p hn; omega
+    · omega
+  obtain ⟨a2, b2, mem2, st2, rep2, hvals, _, frm2⟩ := exec_loadItems (KOf G pi sp dep hi) wf.toWF st _ _ hlenW hload
+    pj.po gs.offset _ c2 gs2 (i + (lowerCode G.cg c1).length) a1 b1 mem1 h2 hat.right.left rep1 hsv
+    (by rw [b1o]; exact Nat.le_refl _) (by show gs2.size + (pj.po + (optArgsOf G.rho es).length) ≤ G.S pi; rw [hlen]; omega)
+    (by rw [b1o]; show pi.p.locals.length ≤ gs.offset + _; omega)
+    (by rw [b1o]; by_cases hn : 0 < countCalls (optArgsOf G.rho es)
+        · exact b1p hn
+        · omega) hci2
+  -- the call
+  have rep2s : Rep (KOf G pi sp dep hi) s mem2 := rep2.sim hsim
+  have hio : s.io = st.io := hsim.2.2.2.1.symm
+  have hwl : ws.length = es.length := hlenv.symm
+  have hct := exec_calltail ok fuel hcs hpi hpj sp dep hi hlo hspv hstack s ws hokv gs2.labelCount gs.offset
+    (i + (lowerCode G.cg c1).length + (lowerCode G.cg c2).length) a2 b2 mem2
+    (by have := hat.right.right; simpa [Nat.add_assoc] using this) rep2s
+    (fun k hk => by
+      have := hvals k (by simpa using hk)
+      rw [getElem_map_wordOf] at this
+      exact this)
+    (by omega) (by omega) (by omega)
+  have frm12 : FrmC (KOf G pi sp dep hi) gs.offset (G.S pi) mem mem2 :=
+    frm1.trans (frm2.mono (by rw [b1o]; omega) (Nat.le_refl _))
+  cases hx : X.callUser fuel G.xc pj.p ws s with
+  | undef w => trivial
+  | exit cd s' =>
+    rw [hx] at hct
+    obtain ⟨c, hs, he⟩ := hct
+    rw [hio] at hs
+    exact ⟨c, st1.trans (st2.trans hs), he⟩
+  | ok res s' =>
+    rw [hx] at hct
+    obtain ⟨a', b', mem', hs, rep', hres, frm3⟩ := hct
+    rw [hio] at hs
+    refine ⟨a', b', mem', ?_, rep', hres, frm12.trans frm3⟩
+    simp only [List.length_append, ← Nat.add_assoc]
+    exact st1.trans (st2.trans hs)
+
+/-- What a call needs of its actuals (the actuals and the callee both run with fuel `f`). -/
+structure ArgsOK (G : GCtx) (pi : PInfo) (sp dep : Nat) (hi : Nat → Word) (f : Nat) (args : List X.Expr) : Prop where
+  noexit : ∀ st mem c s, Rep (KOf G pi sp dep hi) st mem → X.evalArgs f G.xc args st ≠ .exit c s
+  sim : ∀ st mem vs s, Rep (KOf G pi sp dep hi) st mem → X.evalArgs f G.xc args st = .ok vs s → Sim st s
+  call : CallSpec G f → ∀ pj, pj ∈ G.procs → ∀ (st s : X.St) (vs : List Val) (gs : GS) (code : Code) (gs' : GS) (i : Nat)
+      (a b : Word) (mem : Mem),
+    X.evalArgs f G.xc args st = .ok vs s →
+    callSeq pj.callKind (optArgsOf G.rho args).length (countCalls (optArgsOf G.rho args))
+      (genCallActuals (G.ctxOf pi) (optArgsOf G.rho args))
+      (fun p sv => loadActuals (G.ctxOf pi) (optArgsOf G.rho args) p sv) gs = .ok (code, gs') →
+    At G.env.ds i (lowerCode G.cg code) → Rep (KOf G pi sp dep hi) st mem →
+    gs'.size ≤ G.S pi → pi.p.locals.length ≤ gs.offset → ConstsIn (KOf G pi sp dep hi) gs' →
+    match X.callUser f G.xc pj.p vs s with
+    | .ok res s' => ∃ a' b' mem', Steps G.env (cfg i a b mem) st.io (cfg (i + (lowerCode G.cg code).length) a' b' mem') s'.io ∧
+        Rep (KOf G pi sp dep hi) s' mem' ∧ (pj.p.isFunc = true → ∀ w, res = some w → a' = w) ∧
+        FrmC (KOf G pi sp dep hi) gs.offset (G.S pi) mem mem'
+    | .exit cd s' => ∃ c, Steps G.env (cfg i a b mem) st.io c s'.io ∧ Exit G.env c s'.io cd
+    | .undef _ => True
+
+section
+variable {G : GCtx} (ok : G.OK) {pi : PInfo} (hpi : pi ∈ G.procs) (sp dep : Nat) (hi : Nat → Word)
+    (hlo : G.lo ≤ sp) (hspv : sp + G.S pi + pi.po + pi.p.formals.length ≤ G.spv + 1) (hstack : G.spv ≤ sp + dep * G.smax)
+include ok hpi hlo hspv hstack
+
+theorem argsOK_pure (f : Nat) (args : List X.Expr) (hp : ∀ e ∈ args, pureE e = true) : ArgsOK G pi sp dep hi f args :=
+  ⟨fun st _ c s _ => evalArgs_pure_no_exit G.xc args f st c s hp,
+   fun st _ vs s _ h => Sim.ofSame (evalArgs_pure G.xc args f st s vs hp h),
+   fun hcs pj hpj st s vs gs code gs' i a b mem hev hg hat hr hsz hnl hci =>
+     exec_usercall ok f hcs hpi hpj sp dep hi hlo hspv hstack args f st s vs hp hev gs code gs' i a b mem hg hat hr hsz hnl hci⟩
+
+theorem argsOK_pp (pk : PureOk G.xc) (f : Nat) (hleaf : ∀ k, k ≤ f → CallLeaf (KOf G pi sp dep hi) G.pnames k)
+    (args : List X.Expr) (hp : ∀ e ∈ args, ppE G.pnames G.xc.impure e = true) : ArgsOK G pi sp dep hi f args := by
+  have hps : ∀ g, G.pnames.contains g = true → ∃ p, G.xc.genv.lookup g = some (.proc p) :=
+    fun g hg => ok.pnames_mem g (by simpa using hg)
+  exact ⟨fun st mem c s hr => (evalArgs_pp G.xc G.pnames hps pk f args st hp (noLoc_of_rep hr)).2 c s,
+   fun st mem vs s hr h => (evalArgs_pp G.xc G.pnames hps pk f args st hp (noLoc_of_rep hr)).1 vs s h,
+   fun hcs pj hpj st s vs gs code gs' i a b mem hev hg hat hr hsz hnl hci =>
+     exec_usercallP ok pk f hcs hpi hpj sp dep hi hlo hspv hstack args f hleaf st s vs hp hev gs code gs' i a b mem hg hat hr hsz hnl hci⟩
+
+end
 
 end Hex.C01s
